@@ -21,6 +21,10 @@ CHECKS = {
    technique="runtime monitoring: parsed group_by cells per page vs an independent suppression rule; exception class observed for non-contiguous keys; exhaustive small key sequences",
    text="All key sequences over {a,b,null} up to the stated lengths for 1-3 group_by levels are rendered by the real library at several page sizes; the parsed group_by cells must be blank exactly for true repeats not at a page start; non-contiguous keys must raise ValueError and contiguous ones must not. Random longer sequences with int/str keys and page_by/subline_by on other columns widen the reach.",
    note="trusted: reader; page starts are taken from the parsed output (first data row of each page)"),
+ "C14": dict(cat="exploration", ref="5/C14",
+   technique="runtime monitoring: offline checker over recorded encode histories, each run in a forked child, against fresh-interpreter baselines",
+   text="Histories of prior operations (construct / encode / encode twice / failing encode) over a 16-document pool, with and without sharing equal-valued component objects, are executed on the real library; the target's string must equal the string a fresh interpreter produces for the same spec, a second encode must equal the first, DataFrames must be unchanged and the colour context empty after every encode. All histories of length <=1 (quick) / <=2 (thorough) are enumerated, longer ones sampled.",
+   note="trusted: a fresh `python -c` interpreter as the reference; os.fork isolation of histories (watchdog -> inconclusive)"),
  "C16": dict(cat="exploration", ref="5/C16",
    technique="runtime monitoring: picture destinations of the parsed output compared with the generated image files",
    text="Generated PNG/JPEG/EMF files (arbitrary dimensions in their headers, payload lengths around the hex line wrap) are embedded by the real library; the parsed picture payload must equal the file bytes, with the format's blip word, the pixel size from the image header, the configured display size per position (last value reused) and captions on exactly the selected pages.",
